@@ -222,6 +222,36 @@ def _mape(case):
                     continue
                 if abs(v - 1) > 1e-12:
                     bad("naive forecast != 1", "y=%r pred=%r -> %r" % (case["y"], pred.tolist(), v))
+    # multi-horizon tables (n rows, h columns: what build_ts_X_y returns as targets for delay2 >= 3): the previous value of a cell is
+    # the cell one ROW above
+    if n >= 2:
+        for h in (2, 3):
+            Y = numpy.column_stack([numpy.roll(y, -c) * (c + 1.0) + c for c in range(h)])
+            den = numpy.abs(Y[1:] - Y[:-1]).sum()
+            for first in (float("nan"), None):
+                pred = numpy.vstack([numpy.full((1, h), numpy.nan) if first is not None else Y[:1], Y[:-1]])
+                idx = [t for t in range(1, n) if not (numpy.isnan(pred[t]).any() or numpy.isnan(pred[t - 1]).any())]
+                den2 = sum(numpy.abs(Y[t] - Y[t - 1]).sum() for t in idx)
+                if den2 == 0:
+                    continue
+                cnt += 1
+                try:
+                    v = float(ts_mape(Y, pred))
+                except Exception as e:
+                    bad("naive raises", "%s y=%r horizons=%d" % (e, case["y"], h))
+                    continue
+                if abs(v - 1) > 1e-12:
+                    bad("naive forecast != 1", "multi-horizon table %r pred=%r -> %r" % (Y.tolist(), pred.tolist(), v))
+            if den > 0:
+                P2 = Y[::-1].copy()
+                try:
+                    v = float(ts_mape(Y, P2))
+                    exp = numpy.abs(P2[1:] - Y[1:]).sum() / den
+                    cnt += 1
+                    if v < 0 or abs(v - exp) > 1e-12 * max(1.0, exp):
+                        bad("formula", "multi-horizon table %r pred=%r -> %r expected %r" % (Y.tolist(), P2.tolist(), v, exp))
+                except Exception as e:
+                    bad("raises %s" % type(e).__name__, "%s multi-horizon y=%r" % (e, case["y"]))
     return {"viol": viol, "nontrivial": nonconst, "transitions": cnt, "outcome": ("mape", n)}
 
 
